@@ -122,6 +122,15 @@ def norm_stack(st) -> tuple:
     return stk(st)
 
 
+def interp_state() -> tuple:
+    """Process-wide interpreter settings an observer must leave as it found them."""
+    import threading
+
+    return (gc.isenabled(), gc.get_threshold(), sys.gettrace(), sys.getprofile(), threading.gettrace() if hasattr(threading, "gettrace") else None,
+            sys.getswitchinterval(), sys.getrecursionlimit(), sys.get_asyncgen_hooks(), sys.get_coroutine_origin_tracking_depth(),
+            gc.get_debug(), tuple(gc.callbacks), sys.excepthook, sys.unraisablehook)
+
+
 def any_error(st) -> bool:
     import stackscope
 
@@ -155,6 +164,9 @@ class Case:
         lowlevel.set_trickery_enabled(None if c["mode"] == "auto" else c["mode"] == "trickery")
         idx = [0]
         mid_reach = c.get("reach_at", -1)
+        gc_off = bool(c.get("gc_off"))
+        if gc_off:
+            gc.disable()        # an application (or a harness) running with the cyclic collector off
 
         def target_of(w, label):
             if w.kind != "sync" and label == "suspended":
@@ -180,6 +192,7 @@ class Case:
                 tgt = target_of(w, label)
                 if tgt is None:
                     return
+                before = interp_state()
                 frame = w.frame if (w.kind != "sync" and label == "suspended") else None
                 held = []
                 with warnings.catch_warnings(record=True) as caught, contextlib.redirect_stderr(io.StringIO()):
@@ -227,6 +240,12 @@ class Case:
                         self.problems.append(f"point {i} ({label}): reference counts of value-stack objects {[type(o).__name__ for o in objs]} "
                                              f"went from {base} to {after} after the extraction results were dropped")
                 del objs
+                after_state = interp_state()
+                if after_state != before:
+                    names = ["gc enabled", "gc thresholds", "sys.settrace", "sys.setprofile", "threading trace", "switch interval", "recursion limit",
+                             "asyncgen hooks", "coroutine origin tracking", "gc debug flags", "gc callbacks", "excepthook", "unraisablehook"]
+                    diff = [n for n, a, b in zip(names, before, after_state) if a != b]
+                    self.problems.append(f"point {i} ({label}): the extraction changed interpreter-wide state: {diff}")
                 if i == mid_reach:
                     self.reach_check(w, f"after point {i}")
             except Exception as e:
@@ -264,6 +283,10 @@ class Case:
                     who.append(f"{n} <- {[type(x).__name__ for x in gc.get_referrers(r())][:4]}")
             self.problems.append(f"objects of the target still alive after the run and a gc.collect(), in the observed twin only: {extra[:6]} ({'; '.join(who)})")
         lowlevel.set_trickery_enabled(None)
+        if gc_off:
+            if gc.isenabled():
+                self.problems.append("the run was made with the cyclic collector disabled; after the extractions it is enabled")
+            gc.enable()
         return {"events": len(t0), "src_lines": src.count("\n")}
 
     def weakrefs(self, w):
